@@ -117,12 +117,23 @@ def r08a(chk, rid='R08.a'):
             sh._setCssTextWithEncodingOverride = lambda toks, encodingOverride=None, encoding=None: handed.append((toks, encodingOverride, encoding))
             return sh
 
-        me = _Obj(**{'__fetcher': 'F', '_validate': True, '__parseRaising': False, '__globalRaising': False, '__tokenizer': _Obj(tokenize=lambda text_, fullsheet=False: ('tokens of', text_, fullsheet))})
         from sa.absint import Record as _Rec
 
-        intr = {'codecs.getdecoder': getdecoder, 'cssutils': _Rec(log=_Rec(raiseExceptions=False), css=_Rec(CSSStyleSheet=newsheet), stylesheets=_Rec(MediaList=lambda media=None: ('media', media)), codec=_Rec(detectencoding_str=lambda b, final=False: ('utf-8-sig', True) if b[:3] == b'\xef\xbb\xbf' else ('utf-8', False))),
+        class _ML(_Rec):
+            def __init__(self, media=None, *a, **k):
+                _Rec.__init__(self, media=media)
+
+        intr = {'codecs.getdecoder': getdecoder, 'cssutils': _Rec(log=_Rec(raiseExceptions=False), css=_Rec(CSSStyleSheet=newsheet), stylesheets=_Rec(MediaList=_ML), codec=_Rec(detectencoding_str=lambda b, final=False: ('utf-8-sig', True) if b[:3] == b'\xef\xbb\xbf' else ('utf-8', False))),
                 'codec': _Rec(detectencoding_str=lambda b, final=False: ('utf-8-sig', True) if b[:3] == b'\xef\xbb\xbf' else ('utf-8', False))}
-        got = _Ev(psf, intrinsics=intr, module=pm, cls='CSSParser').run(self=me, cssText=data, encoding=enc)
+        # the parser object is what CSSParser.__init__ (evaluated) makes of it
+        intr['tokenize2'] = _Rec(Tokenizer=lambda **k: _Obj(tokenize=lambda text_, fullsheet=False: ('tokens of', text_, fullsheet)))
+        intr['cssutils'].log.setLog = lambda l: None
+        intr['cssutils'].log.setLevel = lambda l: None
+        me = _Obj()
+        r0 = _Ev(chk.repo.fn(PARSE, 'CSSParser.__init__'), intrinsics=intr, module=pm, cls='CSSParser', model_types=(_ML,)).run(self=me, fetcher='F')
+        if isinstance(r0, _Raised):
+            raise AnalysisError(f'CSSParser.__init__: {r0!r}')
+        got = _Ev(psf, intrinsics=intr, module=pm, cls='CSSParser', model_types=(_ML,)).run(self=me, cssText=data, encoding=enc)
         text_in = 'decoded text' if isinstance(data, bytes) else data
         ok = not isinstance(got, _Raised) and handed == [(('tokens of', text_in, True), enc, None)] and (decoded == ([('css', data, enc)] if isinstance(data, bytes) else []))
         chk.ob(rid, PARSE, 'CSSParser.parseString', f'{label}: bytes go through the css codec with the caller\'s encoding; the override handed on to imported sheets is the encoding the caller gave ({enc!r}), nothing sniffed (by evaluation)', ok,
